@@ -452,25 +452,121 @@ def dump_items(line):
     return int(w[0]), int(w[1]), cells
 
 
+def py_oracle(ops):
+    """The property oracle, independent of the Lean model: a Python dict with an insertion counter
+    and a capacity (fixed table) / a plain dict (AutoProbing).  Returns one expectation per op:
+    a string (answer with the slot position erased), ("dump", N, entries, items), ("adump", items)
+    or None (not judged: `ins` of a key that is already present is outside the contract)."""
+    out = []
+    d, count, N = {}, 0, 1
+    ad = {}
+    for op in ops:
+        w = op.split()
+        o = w[0]
+        if o == "pnew":
+            n = int(w[2])
+            if w[1] == "p2" and (n == 0 or n & (n - 1)):
+                out.append("badsize")
+            else:
+                d, count, N = {}, 0, n
+                out.append("ok")
+        elif o in ("ins", "foi"):
+            k, v = int(w[1]), int(w[2])
+            if k in d:
+                out.append("found %d" % d[k] if o == "foi" else None)
+                if o == "ins":      # duplicate Insert: the map view is undefined from here on
+                    return out + [None] * (len(ops) - len(out))
+                continue
+            count += 1
+            if count >= N:
+                out.append("full")
+            else:
+                d[k] = v
+                out.append("ok" if o == "ins" else "new")
+        elif o == "find":
+            k = int(w[1])
+            out.append("found %d" % d[k] if k in d else "absent")
+        elif o == "size":
+            out.append(str(count))
+        elif o == "pdump":
+            out.append(("dump", N, count, sorted(d.items())))
+        elif o == "dbl":
+            N *= 2
+            out.append("ok")
+        elif o == "anew":
+            ad = {}
+            out.append(None)
+        elif o in ("ains", "afoi"):
+            k, v = int(w[1]), int(w[2])
+            if k in ad:
+                out.append("found %d" % ad[k] if o == "afoi" else None)
+                if o == "ains":
+                    return out + [None] * (len(ops) - len(out))
+                continue
+            ad[k] = v
+            out.append("ok" if o == "ains" else "new")
+        elif o == "afind":
+            k = int(w[1])
+            out.append("found %d" % ad[k] if k in ad else "absent")
+        elif o == "asize":
+            out.append(str(len(ad)))
+        elif o == "adump":
+            out.append(("adump", sorted(ad.items())))
+        else:
+            out.append(None)
+    return out
+
+
+def oracle_mismatch(ops, got_lines):
+    """index of the first answer of the real table that the oracle rejects, or None"""
+    want = py_oracle(ops)
+    for idx, w in enumerate(want):
+        if w is None:
+            continue
+        if idx >= len(got_lines):
+            return idx, w
+        got = got_lines[idx]
+        if isinstance(w, tuple):
+            try:
+                N, ent, cells = dump_items(got)
+            except Exception:
+                return idx, w
+            items = sorted((k, v) for _, k, v in cells)
+            if len({p for p, _, _ in cells}) != len(cells) or any(p >= N for p, _, _ in cells):
+                return idx, w
+            if w[0] == "dump":
+                if (N, ent, items) != (w[1], w[2], w[3]):
+                    return idx, w
+            else:
+                # AutoProbing: content = the keys inserted so far, size = their number, buckets a power of two above
+                if items != w[1] or ent != len(w[1]) or N & (N - 1) or N <= len(cells):
+                    return idx, w
+        elif erase_pos(got) != w:
+            return idx, w
+    return None
+
+
 def probing_stream(ctx, hexe, dexe, n_cases):
     found = False
+    n_viol = 0
     for ci in range(n_cases):
+        if n_viol >= 3:
+            break
         auto = ctx.rng.random() < 0.4
-        ops, oracle, meta = (gen_probing_auto if auto else gen_probing_fixed)(ctx.rng)
+        ops, _, meta = (gen_probing_auto if auto else gen_probing_fixed)(ctx.rng)
         # exceeding capacity must raise, not loop: hard timeout on the real code
-        rc1, o1, e1 = stream.run_lines(hexe, ops, timeout=60)
+        rc1, o1, e1 = stream.run_lines(hexe, ops, timeout=20)
         rc2, o2, e2 = stream.run_lines(dexe, ops, timeout=120)
         tag = "probing.auto" if auto else "probing.fixed"
         # non-trivial: some entry sits away from its ideal bucket (a collision was resolved)
         displaced = wrapped = False
         last_dump = None
-        for i, (idx, want) in enumerate(oracle):
-            if ops[idx] in ("pdump", "adump") and idx < len(o1):
+        for idx, op in enumerate(ops):
+            if op in ("pdump", "adump") and idx < len(o1):
                 last_dump = o1[idx]
         if last_dump and rc1 == 0:
             try:
                 N, _, cells = dump_items(last_dump)
-                occ = {p for p, _, _ in cells}
                 for p_, k_, _ in cells:
                     idl = py_hash(meta["hash"], meta["c"], k_) % N
                     if idl != p_:
@@ -492,60 +588,42 @@ def probing_stream(ctx, hexe, dexe, n_cases):
         if ci < 2:
             ctx.sample({"stream": tag, "ops": ops[:14], "impl": o1[:14]})
         if rc1 != 0:
-            what = ("probing table loops instead of raising / terminating (timeout)" if rc1 == "timeout"
-                    else "harness died on probing script (rc=%s): %s" % (rc1, e1[-400:]))
-            small = stream.ddmin(ops, lambda l: stream.run_lines(hexe, l, timeout=10)[0] != 0, keep_prefix=1, max_tests=60)
-            ctx.violation(what, {"stream": tag, "ops": small, "stderr": e1[-2000:]})
+            small = stream.ddmin(ops, lambda l: stream.run_lines(hexe, l, timeout=5)[0] == rc1, keep_prefix=1, max_tests=40)
+            rcs, _, es = stream.run_lines(hexe, small, timeout=5)
+            what = ("probing table loops instead of raising / terminating (timeout)" if rcs == "timeout"
+                    else "harness died on probing script (rc=%s): %s" % (rcs, es[-400:]))
+            ctx.violation(what, {"stream": tag, "ops": small, "stderr": es[-2000:]})
             found = True
+            n_viol += 1
             continue
         # property oracle: a Python dict with a capacity counter (independent of the Lean model)
-        bad = None
-        for idx, want in oracle:
-            got = o1[idx] if idx < len(o1) else None
-            if got is None:
-                bad = (idx, want, got); break
-            if ops[idx] in ("pdump",):
-                try:
-                    N, ent, cells = dump_items(got)
-                    norm = "%d %d %s" % (N, ent, " ".join("%d:%d" % (k, v) for k, v in sorted((k, v) for _, k, v in cells)))
-                    if len({p for p, _, _ in cells}) != len(cells):
-                        norm += " DUP-POS"
-                except Exception:
-                    norm = got
-                if norm != want:
-                    bad = (idx, want, got); break
-            elif ops[idx] == "adump":
-                N, ent, cells = dump_items(got)
-                items = sorted((k, v) for _, k, v in cells)
-                # the content is exactly the keys inserted so far (prefix of meta["items"] in insertion order is not
-                # known here; compare at the final dump only), the bucket count a power of two above the size
-                if N & (N - 1) or N <= len(cells) or ent != len(cells):
-                    bad = (idx, "power-of-two buckets > entries", got); break
-                if idx == len(ops) - 1 and items != meta["items"]:
-                    bad = (idx, "content = inserted keys", got); break
-            elif want is None:
-                continue
-            elif erase_pos(got) != want:
-                bad = (idx, want, got); break
+        bad = oracle_mismatch(ops, o1)
         if bad:
-            idx, want, got = bad
-
-            def still(l):
-                # shrink: the same op (last line) still answers differently from `want` is not decidable without the
-                # oracle; keep the prefix minimal w.r.t. the harness/model disagreement instead when there is one
-                return False
-            ctx.violation("probing table answers %r where the map-with-capacity oracle says %r (op %r)" % (got, want, ops[idx]),
-                          {"stream": tag, "ops": ops[:idx + 1], "op_index": idx, "impl": got, "expected": want})
+            def fails(l):
+                rc, o, _ = stream.run_lines(hexe, l, timeout=10)
+                return rc != 0 or oracle_mismatch(l, o) is not None
+            small = stream.ddmin(ops, fails, keep_prefix=1, max_tests=150)
+            rc, o, _ = stream.run_lines(hexe, small, timeout=10)
+            b2 = oracle_mismatch(small, o) if rc == 0 else None
+            idx = b2[0] if b2 else len(small) - 1
+            want = py_oracle(small)[idx]
+            ctx.violation("probing table answers %r where the map-with-capacity oracle says %r (op %r)" % (
+                o[idx] if idx < len(o) else None, want, small[idx]),
+                {"stream": tag, "ops": small, "op_index": idx, "impl": o[:idx + 1], "expected": want})
             found = True
+            n_viol += 1
         d = stream.first_diff(o1, o2)
         if d is not None or rc2 != 0:
-            small = stream.ddmin(ops, lambda l: stream.disagree(hexe, dexe, l, timeout=20), keep_prefix=1, max_tests=120)
+            small = stream.ddmin(ops, lambda l: stream.disagree(hexe, dexe, l, timeout=20), keep_prefix=1, max_tests=150)
+            (r1, a1, _), (r2, a2, _) = stream.both(hexe, dexe, small, timeout=20)
+            d2 = stream.first_diff(a1, a2)
             ctx.violation("model and implementation disagree on a probing-table operation (answer or exact slot layout)",
-                          {"stream": tag, "ops": small, "first_diff": d,
-                           "impl": o1[d] if d is not None and d < len(o1) else None,
-                           "model": o2[d] if d is not None and d < len(o2) else None},
+                          {"stream": tag, "ops": small, "first_diff": d2,
+                           "impl": a1[d2] if d2 is not None and d2 < len(a1) else None,
+                           "model": a2[d2] if d2 is not None and d2 < len(a2) else None},
                           no_input=not found)
             found = True
+            n_viol += 1
     return found
 
 
@@ -561,14 +639,38 @@ def run(ctx):
         flow.report_obligation_failures(ctx, problems, False)
         return
     dexe = lean.driver_path("drv_C20")
+    # private copy: the shared build cache may be pruned by a concurrent run on another tree
+    import os, shutil
+    from vlib.common import scratch_dir
+    priv = os.path.join(scratch_dir("run"), "c20_%d_%s" % (os.getpid(), os.path.basename(hexe)))
+    shutil.copy2(hexe, priv)
+    hexe = priv
+    try:
+        _streams(ctx, problems, hexe, dexe)
+    finally:
+        try:
+            os.remove(priv)
+        except OSError:
+            pass
+
+
+def _streams(ctx, problems, hexe, dexe):
     n = 150 if ctx.tier == "quick" else 4000
     found = bits_stream(ctx, hexe, dexe, n)
     found = search_stream(ctx, hexe, dexe, n) or found
     found = probing_stream(ctx, hexe, dexe, 300 if ctx.tier == "quick" else 6000) or found
     ctx.cov["rule"] = ("bits: seeded scripts over buffers of 8..96 bytes with disjoint zero fields (widths 1..57 / 1..25 / "
                        "float32 / float31) among all-ones, random or zero neighbours, every bit offset mod 8; a case is "
-                       "non-trivial when it has >= 2 fields; distinct by op script")
+                       "non-trivial when it has >= 2 fields; distinct by op script.  probing: seeded op scripts on the real "
+                       "ProbingHashTable<DivMod|Power2Mod> (1..69 buckets, explicit Double up to 5 times) and AutoProbing "
+                       "(initial size 0..300, up to 400 keys), identity / multiplicative / shift hash, invalid key 0 or not, keys "
+                       "crafted to share ideal buckets and to cluster at the end of the table; non-trivial when >= 3 keys are "
+                       "stored and at least one sits away from its ideal bucket; answers, size, content and the exact slot "
+                       "layout compared")
     ctx.assumptions += ["little-endian x86-64 (BitPackShift identity branch)",
                         "target bits zero before Write* and value < 2^len (documented contract) for the property oracle; "
-                        "contract-violating writes are compared with the model only"]
+                        "contract-violating writes are compared with the model only",
+                        "probing: the invalid key is never inserted and Insert is only called with keys not yet present "
+                        "(documented contract); 64-bit keys, values and hashes; AutoProbing's threshold `buckets * 0.9` in "
+                        "double precision equals floor(9*buckets/10) (compared on every doubling through the bucket count)"]
     flow.report_obligation_failures(ctx, problems, found)
